@@ -34,6 +34,9 @@ CHECKS = {
  "C15": dict(cat="proof", tech="Coq proofs on Expr.v (exact model of ir::Expr): eval is a homomorphism for add/mul/neg/half/normalize/symb_evaluate, decompositions recompose; structural correspondence + arithmetic oracle",
    text="Theorems for every width w>=0, every expression (not only reachable ones) and every assignment: the value of a sum, product, negation, halving, normalisation (both phases, incl. the half-modulus/repeated-variable rewrites) and substitution result is congruent mod 2^w to the arithmetic on the operand values; constant, identity, const_inc_of, prod_of recompose unconditionally; inc_of, prod_inc_of and constant_part recompose under an explicit shape hypothesis (_partial: that public-API-reachable expressions have that shape is not proved, it is checked on every expression the correspondence reaches). Expr.v is tied on every run: random expression programs over all public operations must give exactly the model's part lists and values (debug+release, 4 widths), and values must satisfy an independent arithmetic oracle.",
    note="Expr.v hand-written (hash maps as association lists + the same final sort). split_along is only covered by correspondence.", ref="§4 C15"),
+ "C16": dict(cat="proof", tech="regenerated flag table proved equal to the specified table (translator over src/bin/hpbf.rs) + Coq theorems on the argument loop + binary correspondence",
+   text="tools/cli_translate.py re-derives the flag table, defaults, width dispatch, executor selection and mode order from src/bin/hpbf.rs on every run; Coq proves it equal to the specified table (table_is_spec) and, for every table and every argument list, that the program text is the in-order concatenation of files and bare arguments, that the last flag of each class wins, and what is decided (help / file error / run with width, backend, level, mode, limit). The release binary is run on generated command lines and compared with the model composed with the canonical semantics or the library rendering.",
+   note="Trusted: the regex translator (fails loudly when the structure changes), the binary harness. --time and llvm flags not compared.", ref="§4 C16"),
  "C17": dict(cat="fault_enumeration", tech="failing-allocator child processes enumerating every growth request; Coq theorem on Tape.v with allocation oracle",
    text="Every growth request of random tape histories and of roaming programs on all backends is failed in turn (global allocator returning null); the process must end by SIGABRT/panic. Model side: C17_alloc_fail_safe/_stops proved for all histories and oracles.",
    note="The theorem is about the Tape.v model; the implementation's abort path is observed, not proved.", ref="§4 C17"),
